@@ -1,7 +1,6 @@
 """C04: decision protocol of the primal-dual interior-point LP/QP solver (src/program/solver.cpp)."""
-import os
 import astload
-from core import Fn, Target, VC
+from core import Fn, Target
 import hooks
 import nvwp
 from cxx2c import unwrap, strip_cv, qual
@@ -37,7 +36,8 @@ CALLS = [(r'^operator\*\|[^|]*\|double$', 'nv_e_scale({0}, {1})'),
          (r'^ctor\|nano::program::solver_state_t\|void \((const )?(long|nano::tensor_size_t)', 'pstate_ctor_value({0}, {1}, {2})')]
 MEMBERS = [(r'^(info|warn|error)\|nano::logger_t', '@drop'),
            (r'^feasible\|nano::program::solver_t::program_t', 'program_feasible'),
-           (r'^(n|p|m)\|nano::program::solver_t::program_t', None),   # placeholder, replaced below
+           (r'^n\|nano::program::solver_t::program_t', 'nv_program_n'), (r'^p\|nano::program::solver_t::program_t', 'nv_program_p'),
+           (r'^m\|nano::program::solver_t::program_t', 'nv_program_m'),
            (r'^solve\|nano::program::solver_t::program_t', 'nv_program_solve({self})'),
            (r'^update\|nano::program::solver_t::program_t', '({4} = nv_program_updated({4}))'),
            (r'^update\|nano::program::solver_state_t', '({obj}.m_kkt = nv_kkt_value())'),
@@ -50,9 +50,6 @@ MEMBERS = [(r'^(info|warn|error)\|nano::logger_t', '@drop'),
            (r'^isApprox\|', 'nv_e_isapprox({obj}, {0}, {1})'),
            (r'^segment\|', 'nv_e_segment({obj}, {0}, {1})'),
            (r'^rcond\|', '@nondet'), (r'^isPositive\|', '@nondet')]
-MEMBERS = [m for m in MEMBERS if m[1] is not None]
-MEMBERS[2:2] = [(r'^n\|nano::program::solver_t::program_t', 'nv_program_n'), (r'^p\|nano::program::solver_t::program_t', 'nv_program_p'),
-                (r'^m\|nano::program::solver_t::program_t', 'nv_program_m')]
 
 
 def _opcall(n, name):
